@@ -157,6 +157,117 @@ def assembly_rotation_rotates_every_block(ctx, k):
                             scale=1e3)
 
 
+def _pin_block(npins):
+    """HexBlock with THREE pin components of multiplicity `npins` (fuel, clad, wire) + duct + coolant, no pin grid."""
+    from armi.reactor import blocks, components
+    b = blocks.HexBlock("fuel", height=10.0)
+    fuel = components.Circle("fuel", "UZr", Tinput=25.0, Thot=25.0, od=0.76, id=0.0, mult=npins)
+    clad = components.Circle("clad", "HT9", Tinput=25.0, Thot=25.0, od=0.80, id=0.77, mult=npins)
+    wire = components.Helix("wire", "HT9", Tinput=25.0, Thot=25.0, axialPitch=30.0, helixDiameter=0.9, od=0.1, id=0.0,
+                            mult=npins)
+    duct = components.Hexagon("duct", "HT9", Tinput=25.0, Thot=25.0, op=16.0, ip=15.3, mult=1.0)
+    coolant = components.DerivedShape("coolant", "Sodium", Tinput=400.0, Thot=400.0)
+    for c in (fuel, clad, wire, duct, coolant):
+        b.add(c)
+    return b
+
+
+# how the pin components of a block come by their locators (the property quantifies over "all hex blocks with pin
+# lattices"; WHO OWNS the locator object is a structural dimension of such a block):
+#   auto      HexBlock.autoCreateSpatialGrids() builds the lattice (as Assembly.orientBlocks does): one
+#             MultiIndexLocation object is handed to every component with multiplicity > 1
+#   auto-in-hex  the same inside a hex system grid (the pin grid gets the opposite orientation)
+#   shared2 / shared3   a hand-made MultiIndexLocation with two SYMBOLIC sites shared by 2 / 3 components
+#   own3      the same two symbolic sites, every component holding its own MultiIndexLocation (control)
+_SHARING = ("auto", "auto-in-hex", "shared2", "shared3", "own3")
+
+
+@harness("C08", bounds="real HexBlock with three pin components (fuel, clad, wire), duct, coolant; the pin components "
+                       "SHARE one locator object or own one each (instance: lattice of 7 pins made by "
+                       "HexBlock.autoCreateSpatialGrids with symbolic clad / wire diameters = symbolic pin pitch, plain "
+                       "or nested in a hex system grid; or a hand-made MultiIndexLocation with two symbolic sites and "
+                       "symbolic pitch shared by 2 or 3 components / one per component); k per instance, every k in "
+                       "1..6 for every way of sharing (quick: all of auto and shared2, part of the rest). Sites are compared "
+                       "with rotateIndex applied once (all sites, all components); coordinates of getPinCoordinates "
+                       "with the k*60-degree rotation (3 of the 7 pins of an armi-made lattice; for symbolic sites "
+                       "in two quick instances and all thorough ones)",
+         stubs=STUBS,
+         instances={"quick": [dict(k=k, sharing="auto") for k in (1, 2, 3, 4, 5, 6)] +
+                             [dict(k=k, sharing="shared2", coords=(k in (1, 4))) for k in (1, 2, 3, 4, 5)] +
+                             [dict(k=1, sharing="shared3"), dict(k=5, sharing="shared3"),
+                              dict(k=2, sharing="auto-in-hex"), dict(k=4, sharing="own3")],
+                    "thorough": [dict(k=k, sharing=s, coords=True) for s in _SHARING for k in (1, 2, 3, 4, 5, 6, -1)]})
+def block_rotation_pins_sharing_a_locator(ctx, k, sharing, coords=False):
+    npins = 7 if sharing.startswith("auto") else 2
+    b = _pin_block(npins)
+    fuel, clad, wire = b[0], b[1], b[2]
+    cladOd = ctx.real("cladOd", 0.8, 1.2)
+    wireOd = ctx.real("wireOd", 0.05, 0.3)
+    i1, j1, i2, j2 = ctx.int("i1"), ctx.int("j1"), ctx.int("i2"), ctx.int("j2")
+    clad.p.od = cladOd
+    wire.p.od = wireOd
+    if sharing.startswith("auto"):
+        system = HexGrid.fromPitch(16.2, numRings=2) if sharing == "auto-in-hex" else None
+        b.autoCreateSpatialGrids(system)
+        g = b.spatialGrid
+        pins = [fuel, clad, wire]
+        ctx.check("precondition (armi hands one locator object to all pin components)",
+                  fuel.spatialLocator is clad.spatialLocator and clad.spatialLocator is wire.spatialLocator)
+        ctx.check("the lattice has one site per pin", len(clad.spatialLocator) == npins)
+        ctx.check("nested pin grid has the opposite orientation of the system grid",
+                  g.cornersUp == (sharing == "auto-in-hex" and not system.cornersUp))
+    else:
+        g = HexGrid.fromPitch(cladOd + wireOd, numRings=1)
+        g.armiObject = b
+        b.spatialGrid = g
+        pins = [fuel, clad, wire] if sharing != "shared2" else [fuel, clad]
+
+        def mk():
+            ml = MultiIndexLocation(g)
+            ml.extend([IndexLocation(i1, j1, 0, g), IndexLocation(i2, j2, 0, g)])
+            return ml
+
+        shared = mk()
+        for c in pins:
+            c.spatialLocator = mk() if sharing == "own3" else shared
+    pp = cladOd + wireOd
+    # oracle for the sites: the index-level rotation (HexGrid.rotateIndex rotates the coordinates of EVERY cell by
+    # k*60 degrees for both orientations: harness hex_rotate_index_rotates_coordinates), applied ONCE to each site
+    # the component had before; computed before the block is rotated, from the integers
+    before = {c.name: [(loc.i, loc.j) for loc in c.spatialLocator] for c in pins}
+    want = {c.name: [g.rotateIndex(IndexLocation(a, c_, 0, g), k) for a, c_ in before[c.name]] for c in pins}
+    want = {n: [(w.i, w.j) for w in ws] for n, ws in want.items()}
+    pinsBefore = [tuple(xyz) for xyz in b.getPinCoordinates()]
+    ctx.check("precondition: getPinCoordinates lists the clad sites", len(pinsBefore) == npins)
+
+    b.rotate(k * math.pi / 3.0)
+
+    for c in pins:
+        ctx.check("%s keeps its %d sites" % (c.name, npins), len(c.spatialLocator) == npins)
+        for m, loc in enumerate(c.spatialLocator):
+            wi, wj = want[c.name][m]
+            if ctx.canary and c is clad and m == 1 and npins == 2:
+                wi = wi + ITE(AND(i2 == 3, j2 == -2), 1, 0)
+            ctx.check("%s site %d is its old site rotated by %d deg, once" % (c.name, m, 60 * k),
+                      AND(loc.i == wi, loc.j == wj))
+            ctx.check("%s site %d: still on the block's grid" % (c.name, m), loc.grid is g)
+    # the block-level view of the pins (what pin-wise data is indexed by): coordinates rotated by k*60 degrees
+    pinsAfter = b.getPinCoordinates()
+    ctx.check("getPinCoordinates keeps the number of pins", len(pinsAfter) == npins)
+    for m in (((1,) if coords else ()) if npins == 2 else COORD_PINS):
+        x, y, z = pinsBefore[m]
+        wx, wy = rot(ctx, x, y, k)
+        if ctx.canary and m == 1 and npins != 2:
+            wx = wx + pp * ITE(cladOd > 1.19, 1, 0)
+        sc = abs(x) + abs(y) + pp
+        ctx.check_close("pin %d of getPinCoordinates: x rotated by %d deg" % (m, 60 * k), pinsAfter[m][0], wx, scale=sc)
+        ctx.check_close("pin %d of getPinCoordinates: y rotated by %d deg" % (m, 60 * k), pinsAfter[m][1], wy, scale=sc)
+        ctx.check_close("pin %d of getPinCoordinates: z kept" % m, pinsAfter[m][2], z, scale=1.0)
+
+
+COORD_PINS = (1, 2, 6)   # lattice made by armi: pins whose coordinates are compared (the sites of ALL are compared)
+
+
 @harness("C08", bounds="list / array of 6 symbolic entries, pivot position in -7..7", stubs=STUBS,
          instances={"quick": [dict(pos=p) for p in range(-7, 8)]})
 def pivot_is_a_cyclic_shift(ctx, pos):
